@@ -27,6 +27,7 @@ import (
 	"github.com/transparency-dev/witness/internal/feeder/tiles"
 	ihttp "github.com/transparency-dev/witness/internal/http"
 	"github.com/transparency-dev/witness/internal/persistence/inmemory"
+	"github.com/transparency-dev/witness/internal/verif/kit/asmunits"
 	"github.com/transparency-dev/witness/internal/verif/kit/ev"
 	"github.com/transparency-dev/witness/internal/verif/kit/gen"
 	"github.com/transparency-dev/witness/internal/verif/kit/refnote"
@@ -47,6 +48,11 @@ func main() {
 	run.Floor("duplicate_configs_refused", 30)
 	run.Floor("main_started_without_duplicates", 5)
 	dir := run.Scratch()
+	// isolation through the assembled service: another log republishes its size with another root
+	run.Floor("assembled_progress_episodes", 5)
+	run.Units("asm_isolation", run.Pick(6, 48), 6, func(unit int64, r *rand.Rand) {
+		asmunits.Progress(run, unit, r, "other_log_forks_same_size")
+	})
 	run.Units("isolation", run.Pick(1000, 25000), 0, func(unit int64, r *rand.Rand) { isolation(run, unit, r, dir) })
 	run.Units("identity", run.Pick(60, 600), 0, func(unit int64, r *rand.Rand) { identity(run, unit, r) })
 	run.Floor("assembled_distributor_puts", 60)
